@@ -57,6 +57,16 @@ CHECKS = {
             "Every node of a run is a unit under test: a hook in the harness's node loop evaluates the listening invariant (PWR_UP, PRIM_RX, CE, RX session, EN_RXADDR, six reference pipe addresses, EN_AA=0x3E, DPL) on the chip model at the return of each public call, whatever it returned or raised; at the end injector frames confirm that the parent-facing pipe, a child pipe and the level address really receive.",
             "Trusts the TMRh20-derived reference address translation and the chip model's notion of an RX session.",
             "5 C07"),
+    "C11": ("exploration",
+            "deterministic simulation: every message length written by a real sender to a real receiver (tasks) with the sniffer comparing on-air frames to an independent reference fragmenter and a TMRh20-style reference reassembler; fragment-abort faults for type restoration; direct evaluation of header layout over complete value ranges",
+            "On-air part: all lengths 0..144 over one hop (and single-frame messages over a routed hop), sniffed frames = reference fragmenter output, reference reassembler and the real receiver return the original; fault 'all attempts of fragment k lost' for every k checks that the caller's header type is restored on the abort path. The header layout sub-clause is a pure function evaluated directly over all types x reserved values, all frame ids and all from/to values (labelled direct_evaluation; the simulator adds nothing to it).",
+            "Reference fragmenter/reassembler follow TMRh20 numbering; little-endian host.",
+            "5 C11"),
+    "C12": ("exploration",
+            "small-scope enumeration of queue operation histories against a reference queue model (direct evaluation, no simulator involved) plus deterministic simulation of in-situ arrivals through a real node's radio and update() with duplicated frames, dequeue points, capacity changes and fragmentation toggles",
+            "Part (b) enumerates all operation sequences up to length 6 (quick) / 7 (thorough) over a 9-symbol alphabet and seeded longer ones against a reference queue (a sequential model-based test: no schedule, clock or fault is involved - stated as such); part (a) feeds a real node's queue from an injector radio through the chip model and update(), where the network layer re-uses one frame buffer for every reception, and checks order, content, bound, duplicate rule and that frames handed out earlier are never touched by later receptions.",
+            "Non-fragment message types in direct histories; peek() mutation not generated.",
+            "5 C12"),
     "C13": ("fault_enumeration",
             "deterministic simulation of routes of 1..8 hops (all nodes as seeded-scheduled tasks) with every single-failure position enumerated: forward hop k fails, link ACKs of hop k lost, NETWORK_ACK relay j fails",
             "For each route length the single-failure positions are enumerated as explicit air fault rules (by transmitting node and network frame type); write()'s return value and duration at the origin are compared with the chip model's record of first-hop acceptance and with the sniffer's record of NETWORK_ACK frames stored by the origin's radio; NETWORK_ACK originations at the delivering router are counted per forwarded copy.",
